@@ -108,13 +108,19 @@ def gen_ballots(d, nc, cands, maxlines, equal=False, bigmult=False, nseats=1):
     if mode in (4, 5):
         # quota landing: make the total a multiple of seats+1 and give one candidate exactly
         # the Droop quotient (or one more) in first preferences
+        if d.p(30):
+            # a large electorate of the same shape: a winner one or two votes above a quota of 10^3..10^7 has a transfer
+            # value below the last decimal place (values truncate to exactly zero, narrow surpluses chain)
+            K = 10 ** d.int(2, 6)
+            for b in ballots:
+                b[0] *= K
         tot = sum(m for m, _ in ballots)
         s1 = nseats + 1
         pad = (-tot) % s1
         tot += pad
         c = d.choice(cands)
         have = sum(m for m, r in ballots if r[0] == [c])
-        want = tot // s1 + d.int(0, 1)
+        want = tot // s1 + d.choice([0, 1, 1, 2, 3])
         if pad:
             ballots.append([pad, [[x] for x in d.sample(cands, d.int(1, nc))]])
         if want > have:
@@ -440,6 +446,38 @@ def fractional_landing_case(d):
         ballots = d.perm(ballots)
     opts = {'arithmetic': 'fixed', 'precision': p} if rule == 'wigm' else {}
     return dict(ncand=3, nseats=2, withdrawn=[], undeclared=[], tie=d.perm([1, 2, 3]), ballots=ballots, title='T', names=None,
+                rule=rule, options=opts)
+
+
+def narrow_chain_case(d, statutory_only=False):
+    """two chained narrow surpluses in an electorate of thousands: A is elected a few votes above a quota Q of 10^3..10^5 (transfer
+    value r1 ~ a/Q), all of A's papers go to B, who is then elected a few votes above Q as well (r2 ~ b/Q).  B's pile then holds
+    papers worth 1 (own first preferences) next to papers worth r1, interleaved in file order; at B's transfer the latter fall
+    below the last decimal place (r1*r2 truncates to exactly zero) while the former keep a value.  Exercises zero-valued papers,
+    per-line truncation and any dependence on the order of lines - which a few dozen ballots never reach."""
+    rule = d.choice(['scotland', 'scotland', 'cfer', 'cfer-batch', 'wigm-prf', 'wigm-prf-batch', 'mpls'] + ([] if statutory_only else ['wigm', 'wigm']))
+    nc = d.int(4, 6)
+    ids = d.perm(range(1, nc + 1))
+    A, B, C, Dd = ids[:4]
+    ns = 3
+    q0 = d.choice([10 ** 3, 2 * 10 ** 3, 10 ** 4, 5 * 10 ** 4, 10 ** 5]) + d.int(0, 60)
+    n = (ns + 1) * q0 + d.int(0, ns)
+    Q = q0 + 1                      # floor(n/(s+1)) + 1; the fractional quotas are within one vote of it
+    a, b = d.int(1, 6), d.int(1, 9)
+    own = Q + b - a
+    a1 = d.int(1, Q + a - 1)
+    b1 = d.int(1, own - 1)
+    rest = n - (Q + a) - own
+    c1 = rest // 2 - d.int(0, 5)
+    tailC = [[x] for x in d.sample([y for y in ids if y not in (A, B, C)], d.int(0, nc - 3))]
+    ballots = [[a1, [[A], [B], [C]]], [b1, [[B], [C]]], [Q + a - a1, [[A], [B], [Dd]]], [own - b1, [[B], [Dd]]],
+               [c1, [[C]] + tailC], [rest - c1, [[Dd], [C]]]]
+    if d.p(40):
+        ballots = d.perm(ballots)
+    opts = {}
+    if rule == 'wigm':
+        opts = {'arithmetic': 'fixed', 'precision': d.choice([3, 4, 5])} if d.p(70) else {'arithmetic': 'guarded', 'precision': 4, 'guard': 0}
+    return dict(ncand=nc, nseats=ns, withdrawn=[], undeclared=[], tie=d.perm(range(1, nc + 1)), ballots=ballots, title='T', names=None,
                 rule=rule, options=opts)
 
 
